@@ -132,6 +132,7 @@ class Interp:
         fork_while: bool = False,
         concrete_while: bool = False,
         named_containers: bool = False,
+        replay_logs: bool = False,
         heap: bool = False,
     ):
         self.mod = mod
@@ -156,6 +157,7 @@ class Interp:
         self.auto_inline = auto_inline
         self.fork_while = fork_while
         self.named_containers = named_containers   # a local bound to a fresh empty container keeps its name as identity
+        self.replay_logs = replay_logs             # append-only local lists hold what was appended on the path; a later `for` over them replays it
         self.heap_on = heap            # attribute stores are visible to later reads of the same attribute term on the path
         self.heap: Dict[Sym, Sym] = {}
         self.concrete_while = concrete_while   # a while loop whose test folds to a constant is executed iteration by iteration
@@ -197,6 +199,21 @@ class Interp:
                 self.mutated_locals.add(n_.func.value.id)
             elif isinstance(n_, ast.Subscript) and isinstance(n_.ctx, (ast.Store, ast.Del)) and isinstance(n_.value, ast.Name):
                 self.mutated_locals.add(n_.value.id)
+        self.append_only = set()
+        if self.replay_logs:
+            uses = {}
+            for n_ in ast.walk(fn):
+                if isinstance(n_, ast.Name):
+                    uses.setdefault(n_.id, []).append(n_)
+            for nm in self.mutated_locals:
+                muts = [n_ for n_ in ast.walk(fn) if isinstance(n_, ast.Call) and isinstance(n_.func, ast.Attribute) and isinstance(n_.func.value, ast.Name) and n_.func.value.id == nm]
+                inits = [n_ for n_ in ast.walk(fn) if isinstance(n_, (ast.Assign, ast.AnnAssign)) and any(
+                    isinstance(t_, ast.Name) and t_.id == nm for t_ in (n_.targets if isinstance(n_, ast.Assign) else [n_.target]))]
+                iters = [n_ for n_ in ast.walk(fn) if isinstance(n_, ast.For) and isinstance(n_.iter, ast.Name) and n_.iter.id == nm]
+                if muts and all(m_.func.attr == "append" and len(m_.args) == 1 and not m_.keywords for m_ in muts) and len(inits) == 1 and inits[0].value is not None and (
+                        (isinstance(inits[0].value, ast.List) and not inits[0].value.elts) or (isinstance(inits[0].value, ast.Call) and ast.unparse(inits[0].value) == "list()")) \
+                        and len(uses.get(nm, [])) == len(muts) + len(inits) + len(iters):
+                    self.append_only.add(nm)
         from . import sym as _sym
         _sym.NON_OPTIONAL_RETURNS.clear()
         for q, nodes in self.mod.defs.items():
@@ -328,6 +345,12 @@ class Interp:
         self.cur_line = getattr(st, "lineno", self.cur_line)
         if isinstance(st, ast.Expr):
             v = self._ev(st.value)
+            if self.append_only and self.depth == 0 and not self.inline_stack and isinstance(st.value, ast.Call) and isinstance(st.value.func, ast.Attribute) \
+                    and isinstance(st.value.func.value, ast.Name) and st.value.func.value.id in self.append_only and v[0] == "call" and len(v[2]) == 1:
+                old = self.lookup(st.value.func.value.id)
+                items = old[1] if old is not None and old[0] == "list" else (tuple(C(x) for x in old[1]) if old is not None and old[0] == "c" and isinstance(old[1], tuple) else None)
+                if items is not None:
+                    self.bind(st.value.func.value.id, ("list", tuple(items) + (v[2][0],)))
             if v[0] == "yield":
                 if self.yield_hooks and self.yield_hooks[-1][0] == len(self.frames):
                     self.yield_hooks[-1][1](v[1])
@@ -384,6 +407,26 @@ class Interp:
             if isinstance(st, ast.For) and self._generator_loop(st, it):
                 return
             roles = self.loop_roles(it, self.depth) if self.loop_roles else None
+            if isinstance(st, ast.For) and self.append_only and isinstance(st.iter, ast.Name) and st.iter.id in self.append_only and self.depth == 0 and not st.orelse \
+                    and (it[0] == "list" or (it[0] == "c" and it[1] == ())):
+                # replay of an append-only log: once per entry recorded on this path, in order
+                kind = ("for!", it)
+                self.emit("loop", kind, st)
+                self.loops.append(kind)
+                try:
+                    for x in (it[1] if it[0] == "list" else ()):
+                        self._assign(st.target, x, st, quiet=True)
+                        try:
+                            self._block(st.body)
+                        except _Continue:
+                            self.emit("continue", None, st)
+                        except _Break:
+                            self.emit("break", None, st)
+                            break
+                finally:
+                    self.loops.pop()
+                    self.emit("endloop", kind, st)
+                return
             if isinstance(st, ast.For) and roles is None and it[0] == "c" and isinstance(it[1], tuple) and len(it[1]) <= 32 and not st.orelse:
                 # a loop over a folded constant tuple is executed element by element (exact)
                 kind = ("for!", it)
